@@ -7,8 +7,8 @@ From P Require Import C05_model C05_model_exec C05_proofs C05_gen C05_proofs_tab
 Import ListNotations.
 Local Open Scope nat_scope.
 
-(* the (preset, element) pairs that do not build at the pinned commit *)
-Definition listed_bad : list (string * Z) := [("sg_1"%string, 19%Z); ("sg_3"%string, 14%Z)].
+(* the (preset, element) pairs that do not build at the current commit (potassium/SG-1 was fixed upstream) *)
+Definition listed_bad : list (string * Z) := [("sg_3"%string, 14%Z)].
 Definition pz_eqb (a b : string * Z) : bool := String.eqb (fst a) (fst b) && Z.eqb (snd a) (snd b).
 Definition pz_mem (a : string * Z) (l : list (string * Z)) : bool := existsb (pz_eqb a) l.
 
@@ -20,7 +20,7 @@ Proof.
 Qed.
 
 Lemma bad_rows_listed : forall m,
-  forallb (fun pz => pz_mem pz listed_bad) (bad_rows QOps ntab impl_cfg preset_tables m) = true.
+  forallb (fun pz => pz_mem pz listed_bad) (bad_rows QOps dtab ntab impl_cfg preset_tables m) = true.
 Proof. intros []; vm_cast_no_check (eq_refl true). Qed.
 
 Lemma tabulated_count : length (all_rows preset_tables) <> 0.
@@ -42,7 +42,7 @@ Lemma presets_build_partial_lemma :
 Proof.
   intros ang rot m preset atnum row rg c rotate Hrow Hnot W Hrg Hrot Hpre.
   apply preset_ok_builds_lemma; auto using gen_tables_ok.
-  destruct (preset_okb QOps ntab impl_cfg preset_tables m preset atnum row) eqn:E; [reflexivity|exfalso].
+  destruct (preset_okb QOps dtab ntab impl_cfg preset_tables m preset atnum row) eqn:E; [reflexivity|exfalso].
   apply Hnot, pz_mem_in.
   pose proof (bad_rows_listed m) as B. rewrite forallb_forall in B. apply B.
   unfold bad_rows. apply in_map_iff. exists (preset, atnum, row). split; [reflexivity|].
